@@ -734,6 +734,7 @@ def analyse(tier, seed):
             samples.add("/{a: /x" + c + "y/}")
         for _ in range(40):
             samples.add("".join(chr(rng.randrange(1, 256)) for _ in range(rng.randint(0, n))))
+        samples |= {"/{a: /(b)/}", "/{a: /x(ab|cd)+/}", "/{a: /(x(y))/}-{b: /z+/}", "/{a: /[(]b[)]/}", "/{a: /()/}", "/v{a: /(b|c)*/}.{d}"}
         samples |= {"", "/", "//", "/?", "/a/?b", "/{a}", "/{a: **, capture: 2}", "/{a:   /x/,   b: /y/}", "/{a: /x/b: /y/}", "/{a: b c: d}"}
         samples = sorted(samples)
         # spacing variants of every sample, parsed AFTER the originals by the same parser instance:
